@@ -176,6 +176,14 @@ class PipeOps(FullOps):
         if name == "intersection":
             o = self.to_set(args[0], node) if args else SetV(items=())
             return self.set_binop(s, ast.BitAnd(), o, node)
+        if name == "isdisjoint" and args:
+            o = self.to_set(args[0], node)
+            inter = self.set_binop(s, ast.BitAnd(), o, node) if isinstance(o, SetV) else None
+            if isinstance(inter, SetV):
+                if inter.items is not None and len(inter.items) == 0:
+                    return Const(True)
+                if self.atoms_of(inter):
+                    return TV(kind="pybool", dtype="Bool", note="nonempty?" + "+".join(sorted(self.atoms_of(inter))) + "|neg")
         return super().set_method(s, name, args, kwargs, node, env)
 
     def comp_abstract(self, r, kind, info, lid, filtered, n, env):
@@ -299,15 +307,30 @@ class PipeOps(FullOps):
             return base
         return super().subscript(base, idx, node, env)
 
+    def psum_note(self, v):
+        """Names a bound that is, in closed form, a prefix sum of an accumulated list: `cur` or `cur + width` = `next`."""
+        if not (isinstance(v, TV) and v.poly is not None):
+            return v
+        ps = [x for x in v.poly.symbols() if x.startswith("psum[")]
+        if len(ps) != 1 or ps[0] not in getattr(self, "psums", {}):
+            return v
+        if v.poly == Poly.sym(ps[0]):
+            return v.but(note="prefix-sum-cur")
+        if v.poly == Poly.sym(ps[0]) + self.psums[ps[0]]:
+            return v.but(note="prefix-sum-next")
+        return v.but(note="")
+
     def opaque_index(self, t: TV, idx, node, env):
         parts = list(idx[1]) if idx[0] == "tuple" else [idx]
         out = t
         for pos, part in enumerate(parts):
             if part[0] == "slice":
                 _, lo, hi, step = part
+                lo, hi, step = (None if isinstance(x, Const) and x.v is None else x for x in (lo, hi, step))
                 if lo is None and hi is None and step is None:
                     continue
                 lay = [l for l in t.layout if l[0] == pos]
+                lo, hi = self.psum_note(lo), self.psum_note(hi)
                 self.pev("unpack", node, axis=pos, layout=repr(lay[0][1]) if lay else None, layout_how=lay[0][2] if lay else None,
                          loop_order=repr(self.current_loop_order(env)), lo=repr(lo), hi=repr(hi), lo_poly=self.poly_of(lo), hi_poly=self.poly_of(hi),
                          step=repr(step), in_loop=bool(self.loop_orders), tensor_origin=sorted(t.origin),
@@ -315,8 +338,16 @@ class PipeOps(FullOps):
                          lo_note=lo.note if isinstance(lo, TV) else None, hi_note=hi.note if isinstance(hi, TV) else None)
                 out = out.but(layout=tuple(l for l in out.layout if l[0] != pos), alias=True)
             else:
-                self.pev("index", node, axis=pos, idx=repr(part[1]))
-                out = out.but(layout=())
+                self.pev("index", node, axis=pos, idx=repr(part[1]), tensor_origin=sorted(t.origin))
+                iv = part[1]
+                if len(parts) == 1 and isinstance(iv, Const) and iv.v is None:
+                    # t[None] == t.unsqueeze(0)
+                    out = out.but(layout=tuple((l[0] + 1, l[1], l[2]) for l in out.layout), axes=("K",) + tuple(out.axes))
+                elif len(parts) == 1 and self.const_int(iv) is not None:
+                    # t[c]: the first axis disappears, the layouts of the others move down
+                    out = out.but(layout=tuple((l[0] - 1, l[1], l[2]) for l in out.layout if l[0] > 0), axes=out.axes[1:] if len(out.axes) > 1 else (Q,))
+                else:
+                    out = out.but(layout=())
         return out
 
     # ------------------------------------------------------------------ stores
@@ -364,6 +395,22 @@ class PipeOps(FullOps):
             if desc == ["-1"]:
                 keep = ()
             return t.but(layout=keep, axes=axes if t.axes[0] == "R" and desc and desc[0] == "rows" else ((Q,) if desc == ["-1"] else t.axes))
+        if name in ("flatten", "ravel") and not args and not kwargs:
+            return self.tensor_method(t, "reshape", [ListV(items=(Const(-1),))], {}, node, env)
+        if name == "narrow":
+            dim = args[0] if args else kwargs.get("dim")
+            start = args[1] if len(args) > 1 else kwargs.get("start")
+            length = args[2] if len(args) > 2 else kwargs.get("length")
+            d = self.const_int(dim)
+            ts, tl = tv_of(start), tv_of(length)
+            if d is not None and d >= 0 and ts is not None and tl is not None:
+                if ts.poly is not None and tl.poly is not None:
+                    stop = ts.but(poly=ts.poly + tl.poly, origin=ts.origin | tl.origin, note="")
+                else:
+                    stop = self.elementwise(ts, tl, "add", node)
+                    stop = stop.but(note="") if isinstance(stop, TV) else stop
+                idx = ("tuple", [("slice", None, None, None)] * d + [("slice", start, stop, None)]) if d > 0 else ("slice", start, stop, None)
+                return self.opaque_index(t, idx, node, env)
         if name == "size":
             shp = self.value_attr(t, "shape", node, env)
             d = args[0] if args else kwargs.get("dim")
@@ -451,7 +498,12 @@ class PipeOps(FullOps):
         if isinstance(a, ListV) and isinstance(b, ListV) and a.items is not None and len(a.items) == 1 and self.const_int(a.items[0]) == 0 \
                 and b.items is None and b.order is not None and b.order[1].endswith("[:-1]") and isinstance(b.elem, TV) and b.elem.note == "prefix-sum-next":
             # [0] + cumulative[:-1]: the prefix sums *before* each element
-            return ListV(items=None, elem=b.elem.but(note="prefix-sum-cur"), kind=a.kind, order=(order_src(b.order), b.order[1][:-5]))
+            cur = None
+            if b.elem.poly is not None:
+                ps = [x for x in b.elem.poly.symbols() if x.startswith("psum[")]
+                if len(ps) == 1 and ps[0] in getattr(self, "psums", {}) and b.elem.poly == Poly.sym(ps[0]) + self.psums[ps[0]]:
+                    cur = Poly.sym(ps[0])
+            return ListV(items=None, elem=b.elem.but(note="prefix-sum-cur", poly=cur), kind=a.kind, order=(order_src(b.order), b.order[1][:-5]))
         def literal_keys(x):
             return isinstance(x, ListV) and x.items is not None and x.items and all(isinstance(i, TV) and i.note == "key" for i in x.items)
 
@@ -487,6 +539,9 @@ class PipeOps(FullOps):
             dim = kwargs.get("dim", kwargs.get("axis", args[1] if len(args) > 1 else None))
             d = self.const_int(dim) if dim is not None else 0
             e = lst.elem if lst.items is None else (join_all(lst.items))
+            if fn == "hstack":
+                # hstack = cat along the second axis (the first one for 1-d members)
+                d = 1 if isinstance(e, TV) and len(e.axes) > 1 else 0
             order = lst.order
             if lst.items is not None and order is None:
                 order = (("literal-sequence",), "same")
@@ -627,16 +682,27 @@ class PipeOps(FullOps):
             # one more element after a loop-built list: keeps the order, extended by one trailing block
             order = (order_src(lst.order) + ("then-last",), lst.order[1]) if lst.order is not None else None
             new = ListV(items=None, elem=join(lst.elem, args[0]) if lst.elem is not None else args[0], kind=lst.kind, order=order)
+            if lst.elem is not None:
+                new = replace(new, head=lst.head if lst.tail else lst.elem, tail=lst.tail + (args[0],))
             self.interp.rebind(node.func.value, new, env, node)
             return NONE
         return super().list_method(lst, name, args, kwargs, node, env)
 
-    def accumulate(self, v, node):
+    def accumulate(self, v, node, initial=False):
         lst = self.to_list(v, "list", node)
         if isinstance(lst, ListV):
-            self.pev("accumulate", node, order=repr(lst.order))
-            return ListV(items=None, elem=TV(kind="pyint", note="prefix-sum-next", origin=frozenset(self.atoms_of(lst))), kind="list", order=lst.order)
-        return super().accumulate(v, node)
+            self.pev("accumulate", node, order=repr(lst.order), initial=initial)
+            w = lst.elem.poly if isinstance(lst.elem, TV) and lst.elem.poly is not None else None
+            key = f"{w!r}|{lst.order!r}" if w is not None else f"anon{self.seq}|{lst.order!r}"
+            wp = w if w is not None else Poly.sym(f"width[{key}]")
+            if not hasattr(self, "psums"):
+                self.psums = {}
+            self.psums[f"psum[{key}]"] = wp
+            if initial:
+                # accumulate(xs, initial=0): the i-th item is the sum BEFORE xs[i] (one more item, the total, closes the list)
+                return ListV(items=None, elem=TV(kind="pyint", note="prefix-sum-cur", origin=frozenset(self.atoms_of(lst)), poly=Poly.sym(f"psum[{key}]")), kind="list", order=lst.order)
+            return ListV(items=None, elem=TV(kind="pyint", note="prefix-sum-next", origin=frozenset(self.atoms_of(lst)), poly=Poly.sym(f"psum[{key}]") + wp), kind="list", order=lst.order)
+        return super().accumulate(v, node, initial)
 
 
 def join_all(items):
